@@ -2,6 +2,7 @@ package vc
 
 import (
 	"fmt"
+	"go/ast"
 	"go/types"
 	"path/filepath"
 	"strings"
@@ -58,6 +59,15 @@ func (x *Exec) VerifyLemma(fn *ssa.Function) (err error) {
 	fr := &frame{fn: fn, args: args, entry: st.snapshot()}
 	if ct := x.Prog.Contracts[QualName(fn)]; ct != nil {
 		fr.contract = ct
+		// quantified lemma hypotheses that Go cannot express are given as requires clauses
+		env := &evalEnv{x: x, st: st, pkg: ct.Pkg.Types, vars: map[string]Value{}}
+		for i, p := range fn.Params {
+			env.vars[p.Name()] = args[i]
+		}
+		for _, r := range ct.Requires {
+			x.assume(st, env.evalBool(r.Expr))
+		}
+		fr.entry = st.snapshot()
 	}
 	x.stack = []*ssa.Function{fn}
 	before := len(x.Obls)
@@ -160,6 +170,11 @@ type specDef struct {
 	decl   *FuncDecl
 	params []specParam
 	resT   types.Type
+	// recursive definitions: body over recVars, recursion on recVar
+	recBody  *Term
+	recVars  []*Term
+	recVar   *Term
+	unfolded map[int]bool
 }
 
 var specDefsKey = struct{}{}
@@ -182,7 +197,7 @@ func (x *Exec) callSpec(st *State, fn *ssa.Function, args []Value) Value {
 	if ct := x.Prog.Contracts[QualName(fn)]; ct != nil && ct.Opaque && !x.Opt.Reveal {
 		return x.applyOpaque(st, fn, ct, args)
 	}
-	if isSelfRecursive(fn) {
+	if isSelfRecursive(fn) || x.definable(fn) {
 		def := x.specUF(fn)
 		return x.applySpecUF(st, def, args)
 	}
@@ -207,6 +222,38 @@ func (x *Exec) callSpec(st *State, fn *ssa.Function, args []Value) Value {
 	return res
 }
 
+// definable: a (non-recursive) spec function that can become an SMT define-fun:
+// one scalar result, parameters that are scalars/structs of scalars or slices.
+// Keeping spec functions as named functions (instead of inlining them) keeps
+// quantifier bodies and recursive definitions small.
+func (x *Exec) definable(fn *ssa.Function) bool {
+	if fn.Signature.Results().Len() != 1 || len(fn.FreeVars) > 0 {
+		return false
+	}
+	ok := true
+	func() {
+		defer func() {
+			if recover() != nil {
+				ok = false
+			}
+		}()
+		if len(LayoutOf(fn.Signature.Results().At(0).Type()).Leaves) != 1 {
+			ok = false
+		}
+		for _, p := range fn.Params {
+			if _, isSlice := p.Type().Underlying().(*types.Slice); isSlice {
+				continue
+			}
+			for _, lf := range LayoutOf(p.Type()).Leaves {
+				if lf.Role != "" {
+					ok = false
+				}
+			}
+		}
+	}()
+	return ok
+}
+
 func (x *Exec) applySpecUF(st *State, def *specDef, args []Value) Value {
 	c := x.C
 	var flat []*Term
@@ -223,7 +270,55 @@ func (x *Exec) applySpecUF(st *State, def *specDef, args []Value) Value {
 			flat = append(flat, a.L...)
 		}
 	}
-	return Value{T: def.resT, L: []*Term{c.App(def.decl, flat...)}}
+	app := c.App(def.decl, flat...)
+	if def.recBody != nil && !app.Bound {
+		x.groundUnfold(def, flat)
+	}
+	return Value{T: def.resT, L: []*Term{app}}
+}
+
+// groundUnfold adds the defining equation of a recursive spec function at the
+// ground index terms X+c (c = 1..4) and 0 that the engine itself builds, so the
+// proof does not depend on the solver matching the successor trigger modulo arithmetic.
+func (x *Exec) groundUnfold(def *specDef, flat []*Term) {
+	c := x.C
+	ji := -1
+	for i, v := range def.recVars {
+		if v == def.recVar {
+			ji = i
+		}
+	}
+	if ji < 0 {
+		return
+	}
+	j := flat[ji]
+	base, off := j, int64(0)
+	if j.Op == "bvadd" && j.Args[1].IsLit() {
+		o := signed(j.Args[1].Val, 64)
+		if o.IsInt64() {
+			base, off = j.Args[0], o.Int64()
+		}
+	} else if j.IsLit() {
+		return // literal index: the zero axiom and successor axiom suffice
+	}
+	if off < 1 || off > 4 {
+		return
+	}
+	for s := off; s >= 1; s-- {
+		idx := c.BVBin("bvadd", base, c.BVI(s, 64))
+		args := append([]*Term{}, flat...)
+		args[ji] = idx
+		inst := c.App(def.decl, args...)
+		if def.unfolded[inst.ID] {
+			continue
+		}
+		def.unfolded[inst.ID] = true
+		m := map[*Term]*Term{}
+		for i, v := range def.recVars {
+			m[v] = args[i]
+		}
+		c.Axioms[def.decl.Name] = append(c.Axioms[def.decl.Name], c.Eq(inst, c.Subst(def.recBody, m)))
+	}
 }
 
 // specUF turns a self-recursive spec function into an SMT define-fun-rec.
@@ -281,7 +376,7 @@ func (x *Exec) specUF(fn *ssa.Function) *specDef {
 		d.params = append(d.params, specParam{t: t, nLeaf: len(lay.Leaves)})
 	}
 	d.decl = c.DeclareFun(name, sorts, rl.Leaves[0].Sort)
-	d.decl.Rec = true
+	d.decl.Rec = isSelfRecursive(fn)
 	defs[fn] = d
 	x.specMode++
 	saveNP := x.Opt.NoPanic
@@ -298,9 +393,62 @@ func (x *Exec) specUF(fn *ssa.Function) *specDef {
 	x.stack = saveStack
 	x.Opt.NoPanic = saveNP
 	x.specMode--
-	d.decl.DefVars = vars
-	d.decl.DefBody = res.L[0]
-	x.Notes.Assumed["recursive spec function "+fn.Name()+" is well-founded (it is executable Go; replay runs it)"] = true
+	if !d.decl.Rec {
+		d.decl.DefVars = vars
+		d.decl.DefBody = res.L[0]
+		return d
+	}
+	// Recursive spec function f(args, j) with recursion on the int parameter named by
+	// "decreases": kept uninterpreted, with its defining equation available at j = 0 and at
+	// successor terms j+1 only (trigger f(args, j+1)). Unfolding on every f-term makes the
+	// solvers loop (each unfolding creates a new f-term that matches quantifier triggers).
+	d.decl.Rec = false
+	body := res.L[0]
+	var jv *Term
+	if ct := x.Prog.Contracts[QualName(fn)]; ct != nil && ct.Decreases != nil {
+		if id, ok := ct.Decreases.Expr.(*ast.Ident); ok {
+			for _, v := range vars {
+				if v.Name == sanitize(id.Name) {
+					jv = v
+				}
+			}
+		}
+	}
+	if jv == nil {
+		panic(fmt.Errorf("recursive spec function %s needs '//@ decreases <int parameter>'", fn.Name()))
+	}
+	app := func(j *Term) *Term {
+		as := make([]*Term, len(vars))
+		for i, v := range vars {
+			if v == jv {
+				as[i] = j
+			} else {
+				as[i] = v
+			}
+		}
+		return c.App(d.decl, as...)
+	}
+	succ := c.BVBin("bvadd", jv, c.BVI(1, 64))
+	zero := c.BVI(0, 64)
+	var rest []*Term
+	for _, v := range vars {
+		if v != jv {
+			rest = append(rest, v)
+		}
+	}
+	axSucc := c.Forall(vars, c.Eq(app(succ), c.Subst(body, map[*Term]*Term{jv: succ})), app(succ))
+	axZero := c.Eq(app(zero), c.Subst(body, map[*Term]*Term{jv: zero}))
+	if len(rest) > 0 {
+		axZero = c.Forall(rest, axZero, app(zero))
+	}
+	// The quantified successor equation is not given to the solvers: z3 matches the trigger
+	// f(args, j+1) modulo arithmetic (j := t-1 for any f(args, t)) and unfolds forever.
+	// groundUnfold supplies the instances at the index terms the engine builds.
+	_ = axSucc
+	c.Axioms[name] = append(c.Axioms[name], axZero)
+	d.recBody, d.recVars, d.recVar = body, vars, jv
+	d.unfolded = map[int]bool{}
+	x.Notes.Assumed["recursive spec function "+fn.Name()+" is well-founded (it is executable Go; replay runs it); its definition is used at index 0 and at successor indices"] = true
 	return d
 }
 
@@ -345,7 +493,14 @@ func (x *Exec) applyOpaque(st *State, fn *ssa.Function, ct *Contract, args []Val
 			agree := c.Forall([]*Term{i}, c.Implies(c.And(c.BVCmp("bvsle", q, i), c.BVCmp("bvslt", i, c.BVBin("bvadd", q, c.App(ext, B, q)))), c.Eq(c.Select(B, i), c.Select(B2, i))))
 			// multi-pattern: both applications must be present
 			ax := c.intern(&Term{Op: "forall", Args: []*Term{c.Implies(agree, c.Eq(c.App(f, a2...), c.App(f, a1...)))}, Vars: vars, Pats: []*Term{c.App(f, a1...), c.App(f, a2...)}, Sort: BoolSort, Name: "multi"})
-			c.Axioms[name] = append(c.Axioms[name], ax)
+			// The quantified axiom is kept for reference only: scripts get its ground instances
+			// (frameInstances) because the nested quantifier sends the solvers astray.
+			_ = ax
+			c.Axioms[name] = append(c.Axioms[name], c.True())
+			if c.OpaqueExt == nil {
+				c.OpaqueExt = map[string]string{}
+			}
+			c.OpaqueExt[name] = "opq$" + ct.Extent
 			x.Notes.Assumed[fmt.Sprintf("frame axiom of %s: its value depends only on the %s(b,p) bytes at p (proved with definitions revealed by the lemma named verifLemma_*_frame)", fn.Name(), ct.Extent)] = true
 		}
 		return Value{T: resT, L: []*Term{c.App(f, flat...)}}
@@ -370,5 +525,6 @@ func (x *Exec) applyOpaque(st *State, fn *ssa.Function, ct *Contract, args []Val
 		}
 	}
 	f := c.DeclareFun(name, sorts, rl.Leaves[0].Sort)
+	x.attachAxiomsTo(ct, name)
 	return Value{T: resT, L: []*Term{c.App(f, flat...)}}
 }
